@@ -436,3 +436,25 @@ Example C09_nonvacuous_partial_transpose :
   allpos [2; 3] /\ pt_sparse_index [2; 3] [true; false] 1 5 = (4, 2) /\
   pt_sparse_index [2; 3] [true; false] 4 2 = (1, 5) /\ pt_idx [true; false] = [2; 1; 0; 3].
 Proof. repeat split; try reflexivity; repeat constructor. Qed.
+
+(* 24. subsystem_apply (_one_subsystem_apply): the block / sub-block / offset
+       decomposition of a flat index is exactly (digits of the subsystems
+       before idx, digit of subsystem idx, digits of the subsystems after),
+       for every dims list: the channel acts on digit idx of the row and of
+       the column index and on nothing else *)
+Theorem C09_subsystem_apply_block_split :
+  forall hi d lo H x L,
+    allpos (hi ++ d :: lo) -> valid hi H -> x < d -> valid lo L ->
+    let dims := hi ++ d :: lo in
+    let idx := length hi in
+    let i := undigits dims (H ++ x :: L) in
+    sa_split dims idx i = (undigits hi H, x, undigits lo L) /\
+    sa_join dims idx (undigits hi H) x (undigits lo L) = i /\
+    i < prod dims.
+Proof. exact sa_split_is_digit_split. Qed.
+Print Assumptions C09_subsystem_apply_block_split.
+
+Example C09_nonvacuous_subsystem_apply :
+  allpos ([2; 1] ++ 3 :: [2]) /\ valid [2; 1] [1; 0] /\ valid [2] [1] /\
+  sa_split [2; 1; 3; 2] 2 (undigits [2; 1; 3; 2] [1; 0; 2; 1]) = (1, 2, 1).
+Proof. repeat split; try reflexivity; repeat constructor. Qed.
